@@ -35,6 +35,7 @@ def to_sqf(e):
     if k == 'bool': return 'true' if e[1] else 'false'
     if k == 'str': return qstr(e[1])
     if k == 'nil': return 'nil'
+    if k == 'nul': return e[1]
     if k == 'var': return e[1]
     if k == 'arr': return '[' + ', '.join(to_sqf(x) for x in e[1]) + ']'
     if k == 'code': return block(e[1])
@@ -91,6 +92,10 @@ class Arr:
 class Code:
     __slots__ = ('stmts',)
     def __init__(s, stmts): s.stmts = stmts
+class HMap:
+    """finite map keyed by isEqualTo; keys are captured by value at insertion"""
+    __slots__ = ('items',)
+    def __init__(s, items=None): s.items = list(items or [])
 class RefError(Exception):
     """the reference semantics say this operation raises an SQF runtime error"""
 class RefUnsupported(Exception):
@@ -108,6 +113,8 @@ def snapshot(v):
     """deep copy for traces: arrays by value"""
     if isinstance(v, Arr): return [snapshot(x) for x in v.v]
     if isinstance(v, Code): return ('code', block(v.stmts).encode('latin1'))
+    if isinstance(v, HMap): return ('hashmap', [[snapshot(k), snapshot(x)] for k, x in v.items])
+    if isinstance(v, tuple) and v and v[0] == 'keyset': return ('keyset', [snapshot(k) for k in v[1]])
     return v
 def is_num(v): return isinstance(v, float) or v.__class__ is SF
 def is_bool(v): return isinstance(v, bool) or (v.__class__ is S and v.w == 1)
@@ -130,6 +137,7 @@ def eq_vals(a, b):
             elif not e: return False
         return r
     if isinstance(a, Code) and isinstance(b, Code): return block(a.stmts) == block(b.stmts)
+    if isinstance(a, HMap) and isinstance(b, HMap): return a is b
     return False
 
 class Ref:
@@ -229,6 +237,7 @@ class Ref:
         if k == 'bool': return e[1]
         if k == 'str': return e[1]
         if k == 'nil': return None
+        if k == 'nul' and e[1].lower() == 'createhashmap': return HMap()
         if k == 'var': return s.lookup(e[1])
         if k == 'arr': return Arr([s.ev(x) for x in e[1]])
         if k == 'code': return Code(e[1])
@@ -381,6 +390,15 @@ class Ref:
         if o == 'floor' and is_num(v): return rt.fround('floor', v, 32)
         if o == 'ceil' and is_num(v): return rt.fround('ceil', v, 32)
         if o == 'isnil_val': return v is None
+        if o == 'count' and isinstance(v, HMap): return float(len(v.items))
+        if o == 'keys' and isinstance(v, HMap): return ('keyset', [k for k, x in v.items])
+        if o == '+' and isinstance(v, HMap): return HMap(v.items)
+        if o == 'createhashmapfromarray' and isinstance(v, Arr):
+            m = HMap()
+            for it in v.v:
+                if not isinstance(it, Arr) or len(it.v) != 2: raise RefError('pair expected')
+                s.hm_set(m, it.v[0], it.v[1])
+            return m
         if o == 'str': return ('strof', v)          # str/compile are only modelled as a pair: call compile str v == deep copy of v
         if o == 'compile' and isinstance(v, tuple) and v[0] == 'strof': return Code([('refvalue', v[1])])
         if o == 'reverse' and isinstance(v, Arr): v.v.reverse(); return None
@@ -422,8 +440,30 @@ class Ref:
                 return l.v[i]
             if o == 'isequalto' and isinstance(r, Arr): return eq_vals(l, r)
             if o == 'append' and isinstance(r, Arr): l.v.extend(r.v); return None
+        if isinstance(l, HMap):
+            if o == 'set' and isinstance(r, Arr) and len(r.v) == 2: s.hm_set(l, r.v[0], r.v[1]); return None
+            if o == 'get':
+                i = s.hm_find(l, r); return l.items[i][1] if i is not None else None
+            if o == 'deleteat':
+                i = s.hm_find(l, r)
+                if i is None: return None
+                return l.items.pop(i)[1]
+        if isinstance(r, HMap) and o == 'in': return s.hm_find(r, l) is not None
+        if isinstance(l, Arr) and o == 'set' and isinstance(r, Arr) and len(r.v) == 2 and is_num(r.v[0]) and r.v[0].__class__ is not SF:
+            i = int(r.v[0])
+            if i < 0: raise RefError('negative index')
+            while len(l.v) <= i: l.v.append(None)
+            l.v[i] = r.v[1]; return None
         if o == 'isequalto': return eq_vals(l, r)
         raise RefUnsupported('binary %s on %s,%s' % (op, type(l).__name__, type(r).__name__))
+    def hm_find(s, m, k):
+        for i, (kk, vv) in enumerate(m.items):
+            if s.truth(eq_vals(kk, k)): return i
+        return None
+    def hm_set(s, m, k, v):
+        i = s.hm_find(m, k)
+        if i is not None: m.items[i] = (m.items[i][0], v)
+        else: m.items.append((s.deep_copy(k) if isinstance(k, Arr) else k, v))
     def run(s, stmts):
         """top-level script: returns ('ok', value) | ('error', msg) | ('throw', value)"""
         try:
@@ -472,6 +512,18 @@ def same(vmv, refv):
             return a == b
         return vmv == refv
     if isinstance(refv, bytes): return isinstance(vmv, bytes) and vmv == refv
+    if isinstance(refv, tuple) and refv[0] == 'keyset':
+        # unordered: every reference key must be matched by exactly one VM element
+        if not isinstance(vmv, list) or len(vmv) != len(refv[1]): return False
+        left = list(vmv)
+        for k in refv[1]:
+            hit = None
+            for i, x in enumerate(left):
+                if same(x, snapshot(k)) is True: hit = i; break
+            if hit is None: return False
+            left.pop(hit)
+        return True
+    if isinstance(refv, tuple) and refv[0] == 'hashmap': return isinstance(vmv, tuple) and vmv[0] == 'other'
     if isinstance(refv, tuple) and refv[0] == 'errtext': return vmv is not None
     if isinstance(refv, tuple) and refv[0] == 'script': return True
     if isinstance(refv, tuple) and refv[0] == 'code':
